@@ -209,8 +209,20 @@ fn qtype_of(q: Q) -> QueryType {
     }
 }
 
+/// Progress counter for the loom part (an operation that never returns — e.g.
+/// a prune loop that cannot terminate — would otherwise hang the check: loom
+/// cannot pre-empt a model thread that does not reach a scheduling point).
+static LOOM_PROGRESS: AtomicU64 = AtomicU64::new(0);
+
 /// Run one thread operation; returns a canonical description of its result.
 fn run_top(cache: &SharedCache, op: &TOp) -> String {
+    LOOM_PROGRESS.fetch_add(1, Ordering::Relaxed);
+    let r = run_top_inner(cache, op);
+    LOOM_PROGRESS.fetch_add(1, Ordering::Relaxed);
+    r
+}
+
+fn run_top_inner(cache: &SharedCache, op: &TOp) -> String {
     match op {
         TOp::Ins(r) => {
             cache.insert(&rr_of(r));
@@ -474,7 +486,27 @@ fn explore_program(p: &Program, preemption_bound: usize, max_secs: u64) -> LoomR
         .filter(|(k, _)| !allowed.contains(*k))
         .map(|(_, v)| *v)
         .sum();
-    let violations = violations.lock().unwrap().clone();
+    let mut violations = violations.lock().unwrap().clone();
+    // Programs made only of single-record inserts, lookups and prunes: every
+    // operation is an atomic unit of the statement (a prune is exact and evicts
+    // only while over size), so the outcome must be that of some sequential
+    // order.  Programs with insert_all are not judged this way (locking per
+    // record would be a legitimate implementation).
+    let only_atomic_units = p
+        .threads
+        .iter()
+        .all(|t| t.iter().all(|o| !matches!(o, TOp::InsAll(_))));
+    if only_atomic_units {
+        if let Some((k, n)) = outcomes.iter().find(|(k, _)| !allowed.contains(*k)) {
+            violations.push((
+                "outcome-not-sequential".into(),
+                format!(
+                    "{n} schedule(s) end in per-operation results and a final state that no sequential order of the operations produces: {}",
+                    &k[..k.len().min(600)]
+                ),
+            ));
+        }
+    }
     LoomResult {
         schedules: schedules.load(Ordering::Relaxed),
         outcomes,
@@ -492,7 +524,46 @@ fn run_loom(ctx: &Ctx, report: &mut Report) {
         // loom panics on its own internal failures (deadlock, too many
         // branches): that is a violation of "always terminates" / machinery.
         let p2 = p.clone();
+        // watchdog: no operation started or finished for 30 s = an operation
+        // does not return ("always terminates")
+        let stop = Arc::new(std::sync::atomic::AtomicBool::new(false));
+        {
+            let stop = stop.clone();
+            let (id, tier, seed, started) = (ctx.id, ctx.tier, ctx.seed, ctx.start);
+            let pname = p.name;
+            std::thread::spawn(move || {
+                let mut last = LOOM_PROGRESS.load(Ordering::Relaxed);
+                let mut since = std::time::Instant::now();
+                loop {
+                    std::thread::sleep(Duration::from_millis(500));
+                    if stop.load(Ordering::Relaxed) {
+                        return;
+                    }
+                    let now = LOOM_PROGRESS.load(Ordering::Relaxed);
+                    if now != last {
+                        last = now;
+                        since = std::time::Instant::now();
+                    } else if since.elapsed().as_secs() >= 30 {
+                        finish_emergency(
+                            id,
+                            tier,
+                            seed,
+                            started,
+                            Violation {
+                                clause: "concurrent-nontermination".into(),
+                                summary: format!(
+                                    "program `{pname}` (preemption bound {bound}): a cache operation did not return within 30 s under some interleaving"
+                                ),
+                                replay: json!({"kind": "loom-program", "program": pname, "preemption_bound": bound}),
+                                slug: None,
+                            },
+                        );
+                    }
+                }
+            });
+        }
         let res = std::panic::catch_unwind(move || explore_program(&p2, bound, secs));
+        stop.store(true, Ordering::Relaxed);
         match res {
             Ok(r) => {
                 report.evaluations += r.schedules;
